@@ -17,7 +17,7 @@ FAIL_PATTERNS = [
     r"simplifies to false", r"failed to simplify down to true", r"unreachable",
     r"possible truncation", r"cannot show invariant holds", r"not satisfied before loop",
     r"not satisfied at end of loop", r"might not be allowed", r"expression simplifies to false",
-    r"assert_by_compute", r"compute_only", r"evaluates to false", r"expression simplifies to",
+    r"assert_by_compute", r"compute_only", r"precondition not met", r"index in bounds", r"in bounds for this access", r"evaluates to false", r"expression simplifies to",
 ]
 UNDECIDED_PATTERNS = [r"[Rr]esource limit", r"rlimit", r"timed? ?out", r"solver .* (crashed|unknown)"]
 
